@@ -182,6 +182,8 @@ def check_jumps(tr, j, sys_, occ, ctx, what, wit, rng):
     except ValueError as exc:
         ctx.count('rates_not_available:' + str(exc)[:30])
         return
+    if not ctx.check(len(parts) == n_parts, f'{what}: Jumps.split({n_parts}) returned {len(parts)} parts; rates({n_parts}) divides by the duration of one of {n_parts} parts', wit):
+        return
     part_counters = [p.counter() for p in parts]
     # the parts count jumps by the parent's definition: recounting a part's own transitions with the parent's
     # settings gives the part's jump table
